@@ -156,6 +156,14 @@ func c06Run(c c06Case) Outcome {
 			}
 			h.SendSettings([][2]uint32{{4, nv}})
 			where = fmt.Sprintf("action %d: SETTINGS_INITIAL_WINDOW_SIZE=%d", k, nv)
+		case "setother":
+			// a SETTINGS frame that does not mention INITIAL_WINDOW_SIZE leaves every window as it is (RFC 7540 6.5.3)
+			kv := [][][2]uint32{nil, {{5, 16384 + a.N%1000}}, {{3, 100}, {6, 1 << 20}}, {{1, a.N % 8192}}}[int(a.N)%4]
+			if c.MaxFrame != 0 && len(kv) == 1 && kv[0][0] == 5 {
+				kv = nil // the frame-size limit under test stays what the case says
+			}
+			h.SendSettings(kv)
+			where = fmt.Sprintf("action %d: SETTINGS without INITIAL_WINDOW_SIZE %v", k, kv)
 		default:
 			continue
 		}
@@ -234,10 +242,12 @@ func c06Gen(t *rapid.T) c06Case {
 	}
 	na := rapid.IntRange(0, 30).Draw(t, "nacts")
 	for i := 0; i < na; i++ {
-		a := c06Act{Op: rapid.SampledFrom([]string{"rel", "rel", "wus", "wus", "wus", "wuc", "wuc", "set"}).Draw(t, "op"), I: rapid.IntRange(0, 5).Draw(t, "i")}
+		a := c06Act{Op: rapid.SampledFrom([]string{"rel", "rel", "wus", "wus", "wus", "wuc", "wuc", "set", "setother"}).Draw(t, "op"), I: rapid.IntRange(0, 5).Draw(t, "i")}
 		switch a.Op {
 		case "wus", "wuc":
 			a.N = rapid.OneOf(rapid.SampledFrom([]uint32{1, 2, 100, 16383, 16384, 16385, 65535, 1 << 20}), rapid.Uint32Range(1, 100000)).Draw(t, "n")
+		case "setother":
+			a.N = rapid.Uint32Range(0, 100000).Draw(t, "other")
 		case "set":
 			a.N = rapid.OneOf(rapid.SampledFrom([]uint32{0, 1, 100, 16384, 65535, 65536, 1 << 20, 1<<31 - 1}), rapid.Uint32Range(0, 200000)).Draw(t, "v")
 		}
@@ -248,7 +258,7 @@ func c06Gen(t *rapid.T) c06Case {
 
 func TestC06(t *testing.T) {
 	s := newSuite(t, "C06",
-		"1..6 concurrent responses (0..200000 bytes, buffered / streamed declared / streamed unknown, generated reader chunking) against our SETTINGS_INITIAL_WINDOW_SIZE from {0,1,100,16383,65535,1MiB}, then a generated schedule of up to 30 actions {release handler, WINDOW_UPDATE(stream, n), WINDOW_UPDATE(connection, n), SETTINGS_INITIAL_WINDOW_SIZE up or down (down far enough to drive open streams negative)}, lock-step with quiescence after each action. Oracle: the peer's ledgers (from exactly the SETTINGS/WINDOW_UPDATE it sent) never go negative on a DATA frame, no frame exceeds our MAX_FRAME_SIZE; at every quiescent point a released stream with bytes owed has min(stream, connection) window <= 0 (otherwise the server sits on sendable data); after generous grants every response is complete and exact. Non-trivial = a stream was blocked at least once and a SETTINGS change hit an open stream; distinct by case hash.")
+		"1..6 concurrent responses (0..200000 bytes, buffered / streamed declared / streamed unknown, generated reader chunking) against our SETTINGS_INITIAL_WINDOW_SIZE from {0,1,100,16383,65535,1MiB}, then a generated schedule of up to 30 actions {release handler, WINDOW_UPDATE(stream, n), WINDOW_UPDATE(connection, n), SETTINGS_INITIAL_WINDOW_SIZE up or down (down far enough to drive open streams negative), SETTINGS frames that do not mention it}, lock-step with quiescence after each action. Oracle: the peer's ledgers (from exactly the SETTINGS/WINDOW_UPDATE it sent) never go negative on a DATA frame, no frame exceeds our MAX_FRAME_SIZE; at every quiescent point a released stream with bytes owed has min(stream, connection) window <= 0 (otherwise the server sits on sendable data); after generous grants every response is complete and exact. Non-trivial = a stream was blocked at least once and a SETTINGS change hit an open stream; distinct by case hash.")
 	defer s.finish()
 	runLane(s, Lane[c06Case]{Name: "windows", Journal: true, Quick: 4000, Thor: 300000, Gen: c06Gen, Run: c06Run})
 }
